@@ -43,6 +43,12 @@ CHECKS = {
  "C10": dict(engine="vsched+statespace", technique="stateless exhaustive exploration of thread interleavings of the real vector (sleep sets / preemption bound) + Wing-Gong linearizability vs. map-of-children spec; exhaustive enumeration of sequential histories (stateright BFS)",
    text="(E1) all program pairs (<=2 ops, quick: total length <=3) and five 3-thread drivers over {get-or-create+update, remove, reset, collect, update through a kept handle} on 3 vector flavours (list and map request forms mixed) from 3 start states, on every interleaving of lock/atomic/call-boundary steps; histories incl. a quiescent collect must be linearizable w.r.t. a map key->child, child values decoded per child with interval semantics. (E2) every sequential history up to depth 5 (thorough 6) replayed against the reference after each step.",
    note="SC interleavings; 2 keys, <=3 threads; 3-thread HistogramVec drivers bounded to 2 preemptions in the quick tier", ref="6 C10"),
+ "C07": dict(engine="enum", technique="bounded-exhaustive enumeration of collector subsets x registration orders x all hash-map iteration orders (realised, not sampled) x registry configs on the real Registry vs. reference gather",
+   text="All subsets (size <=4, thorough 5) of a 9-collector pool of library metric types (+ an empty vector), every registration order, every registry-internal collect order (observed through a spy collector; registries rebuilt until all m! orders were seen), every iteration order of the common-label map and 6 registry configurations: each gather() equals the reference gather and all results for one registered set are identical.",
+   note="pool and label values fixed; position of common labels inside the label list not prescribed, only its determinism", ref="6 C07"),
+ "C14": dict(engine="enum", technique="bounded-exhaustive enumeration of collector subsets (incl. same-name different-kind collectors) x all orders on the real Registry; payload kind vs. declared type",
+   text="Over all subsets (size <=3, thorough 4) of a 12-collector pool incl. three same-name collectors of different kinds, all registration and iteration orders: every sample must carry exactly the payload of its family's declared type and the type must be order-independent. The pinned tree violates this for names registered under >=2 kinds (known finding F8, no small safe repair); any other violation is reported.",
+   note="known finding keyed by 'family name registered under >=2 metric kinds'", ref="6 C14"),
 }
 
 NOT_YET = "check not built yet in this round; planned per DESIGN.md section 6"
